@@ -18,3 +18,40 @@ Theorem C06_condensed_index : forall a b n, (0 <= a < n)%Z -> (0 <= b < n)%Z -> 
   exists idx, py_distance_array_index a b n = Some idx /\ (0 <= idx)%Z /\
               nth_error (pairs n no_block) (Z.to_nat idx) = Some (Z.min a b, Z.max a b).
 Proof. exact condensed_index_spec. Qed.
+
+(* The four serial C routines (loop bounds, column-start rule and 0 -> n corrections regenerated from dd_dtw.c)
+   enumerate exactly the specification's pairs in the specification's order, and dtw_distances_length returns
+   their number for every block. *)
+From DV Require Import CMatrix.
+From DVGen Require Import Gen_cmatrix.
+
+Theorem C06_c_routines_enumerate_the_pairs : forall n blk, (0 <= n)%Z -> strict_block n blk ->
+  c_pairs c_dtw_distances_ptrs_re c_dtw_distances_ptrs_ce c_dtw_distances_ptrs_row_start c_dtw_distances_ptrs_row_end
+          c_dtw_distances_ptrs_col_start c_dtw_distances_ptrs_col_end n blk = pairs n blk /\
+  c_pairs c_dtw_distances_matrix_re c_dtw_distances_matrix_ce c_dtw_distances_matrix_row_start c_dtw_distances_matrix_row_end
+          c_dtw_distances_matrix_col_start c_dtw_distances_matrix_col_end n blk = pairs n blk /\
+  c_pairs c_dtw_distances_ndim_matrix_re c_dtw_distances_ndim_matrix_ce c_dtw_distances_ndim_matrix_row_start
+          c_dtw_distances_ndim_matrix_row_end c_dtw_distances_ndim_matrix_col_start c_dtw_distances_ndim_matrix_col_end n blk
+    = pairs n blk /\
+  c_pairs c_dtw_distances_ndim_ptrs_re c_dtw_distances_ndim_ptrs_ce c_dtw_distances_ndim_ptrs_row_start
+          c_dtw_distances_ndim_ptrs_row_end c_dtw_distances_ndim_ptrs_col_start c_dtw_distances_ndim_ptrs_col_end n blk
+    = pairs n blk.
+Proof.
+  intros n blk Hn Hv. repeat split;
+    [apply c_pairs_dtw_distances_ptrs|apply c_pairs_dtw_distances_matrix|apply c_pairs_dtw_distances_ndim_matrix
+    |apply c_pairs_dtw_distances_ndim_ptrs]; assumption.
+Qed.
+
+Theorem C06_c_length_is_number_of_pairs : forall n blk, (0 <= n)%Z -> b_some blk = true ->
+  (0 <= fst (b_rows blk) < snd (b_rows blk))%Z -> (snd (b_rows blk) <= n)%Z ->
+  (0 <= fst (b_cols blk) < snd (b_cols blk))%Z -> (snd (b_cols blk) <= n)%Z ->
+  c_length_block blk = Z.of_nat (length (pairs n blk)).
+Proof. exact c_length_is_number_of_pairs. Qed.
+
+(* every C matrix loop (serial and OpenMP) hands (row series, column series), in this order, to the single-pair
+   routine: table regenerated from the call sites *)
+From Coq Require Import String Bool.
+From DVGen Require Import Gen_ccalls.
+Theorem C06_c_loops_call_row_then_column :
+  forallb (fun t => snd t) c_matrix_calls = true /\ List.length c_matrix_calls = 10%nat.
+Proof. vm_compute. split; reflexivity. Qed.
